@@ -55,15 +55,30 @@ func Deps(v ssa.Value) map[ssa.Value]bool {
 
 // Roots returns the sources v is computed from: parameters, free variables, globals, field loads
 // of parameters, and results of calls that are not known to be pure string/number helpers.
-func Roots(v ssa.Value) map[ssa.Value]bool {
+func Roots(v ssa.Value) map[ssa.Value]bool { return RootsAvoiding(v, nil) }
+
+// RootsAvoiding is Roots, except that the walk does not continue through the values in stop (compared by
+// identity and by rendered access path): it returns the sources that reach v along some path that avoids them.
+func RootsAvoiding(v ssa.Value, stop map[ssa.Value]bool) map[ssa.Value]bool {
 	out := map[ssa.Value]bool{}
 	seen := map[ssa.Value]bool{}
+	stopExpr := map[string]bool{}
+	for sv := range stop {
+		if _, isC := sv.(*ssa.Const); !isC {
+			stopExpr[Expr(sv)] = true
+		}
+	}
 	var walk func(v ssa.Value)
 	walk = func(v ssa.Value) {
 		if v == nil || seen[v] {
 			return
 		}
 		seen[v] = true
+		if stop != nil {
+			if _, isC := v.(*ssa.Const); !isC && (stop[v] || stopExpr[Expr(v)]) {
+				return
+			}
+		}
 		switch x := v.(type) {
 		case *ssa.Const, *ssa.Function, *ssa.Builtin:
 			return
